@@ -204,3 +204,52 @@ def find_sites(F, scope_keys, cf, callee_filter, rule, allow, family_excluded,
                                   extra={"src": ev.get("src", "")}))
     stale = sorted(set(allow) - used_allow)
     return out, stale
+
+
+def cannot_fail_with_const_arg(F, cf, call, idx, value):
+    """Does every target of `call` lack a reachable failing return when its
+    parameter idx has the constant `value`?  Edges of conditions that test the
+    parameter directly (p, !p, p == c, p != c) are pruned accordingly."""
+    from .cfgutil import classify_return, _strip_not
+    ts = F.targets(call)
+    if not ts:
+        return False
+    for t in ts:
+        removed = set()
+        for b in t.blocks.values():
+            if b.cond is None or len(b.succ) != 2:
+                continue
+            tree, pos = _strip_not(b.cond, True)
+            truth = None
+            if isinstance(tree, dict) and tree.get("k") == "var" and tree.get("p") == idx:
+                truth = bool(value)
+            elif isinstance(tree, dict) and tree.get("k") == "bin" and tree.get("op") in ("==", "!="):
+                l, r = tree.get("l"), tree.get("r")
+                for a, c in ((l, r), (r, l)):
+                    while isinstance(a, dict) and a.get("k") == "icast":
+                        a = a.get("e")
+                    cv = c
+                    while isinstance(cv, dict) and cv.get("k") == "icast" and "v" not in cv:
+                        cv = cv.get("e")
+                    if isinstance(a, dict) and a.get("k") == "var" and a.get("p") == idx \
+                            and isinstance(cv, dict) and "v" in cv:
+                        truth = (value == cv["v"]) if tree["op"] == "==" else (value != cv["v"])
+            if truth is None:
+                continue
+            if not pos:
+                truth = not truth
+            # remove the edge that contradicts the known truth
+            dead = b.succ[1] if truth else b.succ[0]
+            if dead is not None:
+                removed.add((b.id, dead))
+        reach = t.reachable(removed_edges=removed)
+        for b, ev in t.returns():
+            if b.id not in reach:
+                continue
+            c = classify_return(t, b, ev)
+            if c == "ok":
+                continue
+            if isinstance(c, tuple) and not cf.call_can_fail(c[1]):
+                continue
+            return False
+    return True
